@@ -12,6 +12,8 @@
 """
 from __future__ import annotations
 
+import zlib
+
 import numpy as np
 
 from harness import rdmstore as S
@@ -36,7 +38,8 @@ def basis_rdms(basis, nc, measure='grid'):
     return rsatoolbox.rdm.RDMs(np.array(basis, dtype=float), dissimilarity_measure=measure,
                                descriptors={'session': 'x'},
                                rdm_descriptors={'name': [f'b{k}' for k in range(len(basis))]},
-                               pattern_descriptors={'index': np.arange(nc), 'cond': [f'c{p + 1}' for p in range(nc)]})
+                               pattern_descriptors={'index': np.arange(nc), 'cond': [f'c{p + 1}' for p in range(nc)],
+                                                    'cat': [(p + 2) // 2 for p in range(nc)]})
 
 
 def data_rdms(train, nc):
@@ -79,8 +82,7 @@ class Scorer:
 
 
 def _key(clause, fitter, method, sig, R, rep):
-    return f"C08/{clause}/{fitter}/{method}/sigma_k-{'given' if sig else 'none'}/{'multi' if R > 1 else 'single'}-rdm" + \
-        ('/repeats' if rep else '')
+    return f"C08/{clause}/{fitter}/{method}/sigma_k-{'given' if sig else 'none'}/{'multi' if R > 1 else 'single'}-rdm"
 
 
 def check_problem(rec, comps, nc, rng, n_random=200, with_optimize=False, configs=CONFIGS):
@@ -119,6 +121,13 @@ def check_problem(rec, comps, nc, rng, n_random=200, with_optimize=False, config
         except Exception as ex:
             out.append((f'C08/raises/compare/{method}/{type(ex).__name__}', f'{type(ex).__name__}: {ex}', dict(case0, method=method)))
             continue
+        # competitors shared by both regression fitters: TLC's grid, random directions and their absolute values
+        nr_ = n_random if not sig else max(20, n_random // 5)       # whitened + sigma_k: one cg solve per competitor
+        Rnd = rng.normal(size=(nr_, K))
+        C_all = np.vstack([wcomps.reshape(-1, K), Rnd, np.abs(Rnd)])
+        C_all = C_all[np.any(C_all != 0, axis=1)]
+        s_all = sc.many(C_all)
+        n_eval += len(C_all)
         for fname, nonneg in (('fit_regress', False), ('fit_regress_nn', True)):
             fit = getattr(F, fname)
             case = dict(case0, method=method, sigma_k=None if sigma is None else sigma.tolist(), fitter=fname)
@@ -137,8 +146,8 @@ def check_problem(rec, comps, nc, rng, n_random=200, with_optimize=False, config
             nrm = float(np.sqrt(th @ th))
             if nrm > 0 and abs(nrm - 1.0) > 1e-12:
                 out.append((f'C08/e/{fname}/not-unit-norm', f'|theta| = {nrm!r} with normalize=True', dict(case, theta=th.tolist())))
-            nr_ = float(np.sqrt(th_raw @ th_raw))
-            if nr_ > 0 and nrm > 0 and not np.allclose(th_raw / nr_, th, rtol=0, atol=1e-12):
+            nr2 = float(np.sqrt(th_raw @ th_raw))
+            if nr2 > 0 and nrm > 0 and not np.allclose(th_raw / nr2, th, rtol=0, atol=1e-12):
                 out.append((f'C08/e/{fname}/normalize-changes-direction', 'normalize=True / False give different directions',
                             dict(case, theta=th.tolist(), raw=th_raw.tolist())))
             # b: constraint
@@ -146,19 +155,16 @@ def check_problem(rec, comps, nc, rng, n_random=200, with_optimize=False, config
                 out.append((_key('b', fname, method, sig, R, rep) + '/negative-weight', f'theta = {th.tolist()}', dict(case, theta=th.tolist())))
             # a / b: no competitor scores higher
             s_fit = sc.one(th)
-            s_b = float(sc.many([th])[0])
-            if abs(s_fit - s_b) > (1e-12 if method in ('cosine', 'corr') else 1e-8):
-                raise MachineryError(f'batch scoring disagrees with predict_rdm scoring: {s_fit} vs {s_b} on {case}')
-            C = [wcomps] if len(wcomps) else []
-            C.append(np.vstack([th + d for d in 1e-3 * np.vstack([np.eye(K), -np.eye(K)])]))
-            C.append(rng.normal(size=(n_random, K)))
-            C = np.vstack(C)
+            loc = np.vstack([th + d for d in 1e-3 * np.vstack([np.eye(K), -np.eye(K)])])
             if nonneg:
-                C = C[np.all(C >= 0, axis=1) | (np.arange(len(C)) >= len(wcomps))]
-                C = np.abs(C)
-            C = C[np.any(C != 0, axis=1)]
-            s_c = sc.many(C)
-            n_eval += len(C)
+                loc = np.abs(loc)
+            s_loc = sc.many(np.vstack([th[None, :], loc]))
+            n_eval += len(loc)
+            if abs(s_fit - s_loc[0]) > (1e-12 if method in ('cosine', 'corr') else 1e-8):
+                raise MachineryError(f'batch scoring disagrees with predict_rdm scoring: {s_fit} vs {s_loc[0]} on {case}')
+            ok = np.all(C_all >= 0, axis=1) if nonneg else np.ones(len(C_all), bool)
+            C = np.vstack([C_all[ok], loc])
+            s_c = np.concatenate([s_all[ok], s_loc[1:]])
             j = int(np.nanargmax(s_c))
             margin((fname, method, sig, R > 1, rep), s_c[j] - s_fit)
             if s_c[j] > s_fit + TOL[method]:
@@ -224,7 +230,10 @@ def check_problem(rec, comps, nc, rng, n_random=200, with_optimize=False, config
                     j = int(np.nanargmax(s_c))
                     margin(('fit_interpolate', method, sig, R > 1, rep), s_c[j] - s_fit)
                     if s_c[j] > s_fit + TOL_INTERP:
-                        out.append((f'C08/d/fit_interpolate/{method}/beaten', 'another mixture of two adjacent RDMs scores higher',
+                        # the bounded scalar search is a local search: with non-positive similarities along a segment the
+                        # criterion is not unimodal; reported under its own key
+                        kind = 'beaten' if s_fit > 0 and min(s_c) > 0 else 'beaten/non-positive-similarity-on-segment'
+                        out.append((f'C08/d/fit_interpolate/{method}/{kind}', 'another mixture of two adjacent RDMs scores higher',
                                     dict(case, theta=th.tolist(), score=s_fit, competitor=T[j].tolist(), competitor_score=float(s_c[j]))))
             except Exception as ex_:
                 out.append((f'C08/raises/fit_interpolate/{method}/{type(ex_).__name__}', f'{type(ex_).__name__}: {ex_}', case))
@@ -233,7 +242,7 @@ def check_problem(rec, comps, nc, rng, n_random=200, with_optimize=False, config
             for fname, nonneg in (('fit_optimize', False), ('fit_optimize_positive', True)):
                 case = dict(case0, method=method, fitter=fname)
                 try:
-                    np.random.seed(int(rng.integers(0, 2 ** 31 - 1)))
+                    np.random.seed(zlib.crc32(repr((basis, train, rec['pidx'], fname, method)).encode()) % (2 ** 31 - 1))
                     th = np.asarray(getattr(F, fname)(mw, data, method=method, pattern_idx=pidx, pattern_descriptor='index'), dtype=float)
                     s_fit = sc.one(th)
                     C = np.vstack([wcomps, rng.normal(size=(n_random // 2, K))])
@@ -454,7 +463,10 @@ def record_trace(seed, const):
     R = int(rng.integers(1, NR + 1))
     D = token_data(R, NC)
     # integer data values attached to the tokens: the fit runs on values, deps are read off the labels
-    vals = rng.integers(0, 10, size=(NR, L))
+    # every row: a permutation of 0..L-1, in half of the sessions halved (pairs of ties); never constant on 3 entries
+    vals = np.array([rng.permutation(L) for _ in range(NR)])
+    if rng.random() < 0.5:
+        vals = vals // 2
     Dv = data_rdms(vals[:R].tolist(), NC)
     which = ['fit_regress', 'fit_regress_nn', 'fit_select', 'fit_interpolate'][int(rng.integers(0, 4))]
     method = ['cosine', 'corr'][int(rng.integers(0, 2))]
